@@ -1,633 +1,51 @@
-(* Proofs_Kernels.v -- the characterising lemma of every kernel that
-   tools/go2coq re-generates from /repo (theories/gen/K_<name>.v, one file per
+(* Proofs_Kernels.v -- umbrella: re-exports the characterising lemmas of every kernel
+   that tools/go2coq re-generates from /repo (theories/gen/K_<name>.v, one file per
    line of tools/go2coq/kernels.list).
 
-   Each lemma states, in plain arithmetic, exactly what the CURRENT Go code
-   decides; property theorems depend on these lemmas and never on the shape of
-   the generated text.  Editing a comparison, a constant or an operator in the
-   Go source changes the generated definition and the lemma below stops
-   compiling.
-   Style: stdlib only; arithmetic closed by lia with the euclidean-division hook. *)
-From Coq Require Import ZArith Bool String List Lia.
-From Coq Require Import ZifyBool.
-From Goloop Require Import lib.GoInt.
-From Goloop.gen Require Import
-  K_enoughVote K_matchNID K_isValidTransition K_hasOverTwoThirds K_overTwoThirdsDecision
-  K_getProposerIndex K_psidAppData K_destructPSIDAppData
-  K_CheckTxTimestamp K_timestampRangeMin K_timestampRangeMax
-  K_trackerHasGuard K_locatorCacheMiss
-  K_LevelFromLen K_powerOf16 K_minProofLenForKey
-  K_rlpCountBytesForSize
-  K_onPacketIsOneHop K_onPacketIsBroadcast K_onPacketDropOneHop K_onPacketDropBroadcast
-  K_peerRoleHas K_newPacketDestInfo K_packetDestInfoDest
-  K_newPacketExtendInfo K_packetExtendInfoHint K_packetExtendInfoLen
-  K_ntmNotEnoughParts K_ntmPartIndexOutOfRange.
-Import ListNotations.
-Local Open Scope Z_scope.
-
-Ltac Zify.zify_post_hook ::= Z.to_euclidean_division_equations.
-
-(* half of the int range: n*2 does not overflow *)
-Notation half_i64 := 4611686018427387903 (only parsing).
-
-Local Ltac split_ifs :=
-  repeat match goal with
-         | |- context [if ?c then _ else _] => destruct c eqn:?
-         end.
-
-(* Shape-independent closing tactic: after unfolding the kernel, case-split its
-   conditionals, expand every wrap into `mod` by a literal and let lia (with the
-   euclidean-division hook: Z.quot, Z.rem, /, mod by literals) finish.  Proofs
-   closed this way survive semantics-preserving edits of the Go source (renamed
-   locals, `n*2/3` rewritten as `2*n/3`, reordered tests) and break exactly when
-   the decision changes. *)
-Local Ltac kernel_lia := intros; cbv zeta; split_ifs; wrap_unfold; lia.
-
-(* ========================================================================= *)
-(* consensus: vote thresholds                                                 *)
-(* ========================================================================= *)
-
-Lemma enoughVote_spec voted voters :
-  0 <= voters <= half_i64 ->
-  enoughVote voted voters = true <-> (voters = 0 \/ 3 * voted > 2 * voters).
-Proof. unfold enoughVote. kernel_lia. Qed.
-
-Lemma enoughVote_params_ok : enoughVote_params = ["voted"; "voters"]%string.
-Proof. reflexivity. Qed.
-
-Lemma hasOverTwoThirds_spec count n :
-  0 <= n <= half_i64 ->
-  hasOverTwoThirds count n = true <-> 3 * count > 2 * n.
-Proof. unfold hasOverTwoThirds. kernel_lia. Qed.
-
-Lemma hasOverTwoThirds_params_ok : hasOverTwoThirds_params = ["vs.count"; "len(vs.msgs)"]%string.
-Proof. reflexivity. Qed.
-
-(* the test inside getOverTwoThirdsRoundDecisionDigest: the best counter vs the same bound *)
-Lemma overTwoThirdsDecision_spec max n :
-  0 <= n <= half_i64 ->
-  overTwoThirdsDecision max n = true <-> 3 * max > 2 * n.
-Proof. unfold overTwoThirdsDecision. kernel_lia. Qed.
-
-Lemma overTwoThirdsDecision_params_ok : overTwoThirdsDecision_params = ["max"; "len(vs.msgs)"]%string.
-Proof. reflexivity. Qed.
-
-(* all three consensus thresholds are the same predicate *)
-Lemma thresholds_agree x n :
-  0 < n <= half_i64 ->
-  enoughVote x n = hasOverTwoThirds x n /\ hasOverTwoThirds x n = overTwoThirdsDecision x n.
-Proof.
-  intros Hn. split; apply bool_eq_iff.
-  - rewrite enoughVote_spec, hasOverTwoThirds_spec by lia. lia.
-  - rewrite hasOverTwoThirds_spec, overTwoThirdsDecision_spec by lia. lia.
-Qed.
-
-(* two sets both over two thirds of n intersect: the quorum-intersection arithmetic *)
-Lemma over_two_thirds_intersect a b n :
-  0 <= n <= half_i64 -> a <= n -> b <= n ->
-  hasOverTwoThirds a n = true -> hasOverTwoThirds b n = true -> 3 * (a + b - n) > n.
-Proof. intros Hn Ha Hb. rewrite !hasOverTwoThirds_spec by lia. lia. Qed.
-
-Example enoughVote_boundary :
-  enoughVote 14 21 = false /\ enoughVote 15 21 = true /\ enoughVote 2 3 = false /\
-  enoughVote 3 4 = true /\ enoughVote 0 0 = true.
-Proof. repeat split; reflexivity. Qed.
-
-(* ---------------------------------------------------------------- matchNID *)
-
-Lemma matchNID_spec nid1 nid2 :
-  matchNID nid1 nid2 = true <-> (nid1 = 0 \/ nid2 = 0 \/ nid1 = nid2).
-Proof. unfold matchNID. kernel_lia. Qed.
-
-Lemma matchNID_sym nid1 nid2 : matchNID nid1 nid2 = matchNID nid2 nid1.
-Proof. apply bool_eq_iff. rewrite !matchNID_spec. lia. Qed.
-
-(* ------------------------------------------------------- isValidTransition *)
-
-(* step constants (consensus/step.go iota block), as resolved by the translator:
-   stepNewHeight = 0, stepNewRound = 2, stepCommit = 8 *)
-Lemma isValidTransition_spec from to :
-  isValidTransition from to = true <->
-  (to = 0 /\ (from = 0 \/ from = 8)) \/ to = 2 \/ (to <> 0 /\ to <> 2 /\ from < to).
-Proof. unfold isValidTransition. kernel_lia. Qed.
-
-(* within one round (no return to NewHeight / NewRound) steps only move forward *)
-Lemma isValidTransition_forward from to :
-  isValidTransition from to = true -> to <> 0 -> to <> 2 -> from < to.
-Proof. rewrite isValidTransition_spec. lia. Qed.
-
-(* ---------------------------------------------------------- getProposerIndex *)
-
-Lemma getProposerIndex_spec height round n :
-  0 <= height -> 0 <= round -> height + round <= max_i64 -> 0 < n <= max_i64 ->
-  getProposerIndex height round n = (height + round) mod n.
-Proof.
-  intros. unfold getProposerIndex. rewrite !wrap_i64_small by lia.
-  apply rem_nonneg; lia.
-Qed.
-
-Lemma getProposerIndex_range height round n :
-  0 <= height -> 0 <= round -> height + round <= max_i64 -> 0 < n <= max_i64 ->
-  0 <= getProposerIndex height round n < n.
-Proof. intros. rewrite getProposerIndex_spec by lia. apply Z.mod_pos_bound. lia. Qed.
-
-Lemma getProposerIndex_params_ok :
-  getProposerIndex_params = ["height"; "round"; "validators.Len()"]%string.
-Proof. reflexivity. Qed.
-
-(* ----------------------------------------------------------- psid app data *)
-
-Lemma psidAppData_spec nid cnt :
-  0 <= nid <= max_u32 -> 0 <= cnt <= max_u16 ->
-  psidAppData nid cnt = nid * 65536 + cnt.
-Proof.
-  intros Hn Hc. unfold psidAppData.
-  assert (Hs : Z.shiftl nid 16 = nid * 65536) by (rewrite shiftl_mul by lia; reflexivity).
-  rewrite (wrap_u64_small (Z.shiftl nid 16)) by (rewrite Hs; lia).
-  rewrite lor_shiftl_low by (change (2 ^ 16) with 65536; lia). reflexivity.
-Qed.
-
-Lemma destructPSIDAppData_spec a :
-  0 <= a <= max_u64 ->
-  destructPSIDAppData a = ((a / 65536) mod 4294967296, a mod 65536).
-Proof.
-  intros Ha. unfold destructPSIDAppData. cbv zeta.
-  rewrite shiftr_div by lia. reflexivity.
-Qed.
-
-Lemma psidAppData_roundtrip nid cnt :
-  0 <= nid <= max_u32 -> 0 <= cnt <= max_u16 ->
-  destructPSIDAppData (psidAppData nid cnt) = (nid, cnt).
-Proof.
-  intros Hn Hc. rewrite psidAppData_spec by lia.
-  rewrite destructPSIDAppData_spec by lia. f_equal; lia.
-Qed.
-
-(* ========================================================================= *)
-(* service: transaction timestamp window                                      *)
-(* ========================================================================= *)
-
-Lemma CheckTxTimestamp_spec min max ts :
-  CheckTxTimestamp min max ts = ENil <-> min < ts <= max.
-Proof.
-  unfold CheckTxTimestamp. cbv zeta. split_ifs; split; intro H; try discriminate; try lia; reflexivity.
-Qed.
-
-Lemma CheckTxTimestamp_expired min max ts :
-  CheckTxTimestamp min max ts = EErr "ExpiredTransactionError" <-> ts <= min.
-Proof.
-  unfold CheckTxTimestamp. cbv zeta. split_ifs; split; intro H; try discriminate; try lia; reflexivity.
-Qed.
-
-Lemma CheckTxTimestamp_future min max ts :
-  CheckTxTimestamp min max ts = EErr "FutureTransactionError" <-> min < ts /\ max < ts.
-Proof.
-  unfold CheckTxTimestamp. cbv zeta. split_ifs; split; intro H; try discriminate; try lia; reflexivity.
-Qed.
-
-Lemma CheckTxTimestamp_params_ok :
-  CheckTxTimestamp_params = ["min"; "max"; "tx.Timestamp()"]%string.
-Proof. reflexivity. Qed.
-
-Lemma timestampRangeMin_spec bts th :
-  min_i64 <= bts - th <= max_i64 -> timestampRangeMin bts th = bts - th.
-Proof. unfold timestampRangeMin. kernel_lia. Qed.
-
-Lemma timestampRangeMax_spec bts th :
-  min_i64 <= bts + th <= max_i64 -> timestampRangeMax bts th = bts + th.
-Proof. unfold timestampRangeMax. kernel_lia. Qed.
-
-(* NewTimestampRange(bts, th).CheckTx accepts exactly the window (bts-th, bts+th] *)
-Lemma timestampRange_window bts th ts :
-  min_i64 <= bts - th <= max_i64 -> min_i64 <= bts + th <= max_i64 ->
-  CheckTxTimestamp (timestampRangeMin bts th) (timestampRangeMax bts th) ts = ENil
-  <-> bts - th < ts <= bts + th.
-Proof.
-  intros. rewrite timestampRangeMin_spec, timestampRangeMax_spec by lia.
-  apply CheckTxTimestamp_spec.
-Qed.
-
-(* ---------------------------------------------------------------- txlocator *)
-
-(* tracker.Has: `ts >= t.list.ts + t.list.th` -- the transaction is too new for this list *)
-Lemma trackerHasGuard_spec ts lts lth :
-  min_i64 <= lts + lth <= max_i64 ->
-  trackerHasGuard ts lts lth = true <-> lts + lth <= ts.
-Proof. unfold trackerHasGuard. kernel_lia. Qed.
-
-Lemma trackerHasGuard_params_ok :
-  trackerHasGuard_params = ["ts"; "t.list.ts"; "t.list.th"]%string.
-Proof. reflexivity. Qed.
-
-(* manager.hasLocatorInCache: a known maximum timestamp in the DB below ts means "not in DB" *)
-Lemma locatorCacheMiss_spec maxTS ts :
-  locatorCacheMiss maxTS ts = true <-> maxTS <> 0 /\ maxTS < ts.
-Proof. unfold locatorCacheMiss. kernel_lia. Qed.
-
-Lemma locatorCacheMiss_params_ok :
-  locatorCacheMiss_params = ["m.cache[group].maxTSInDB"; "ts"]%string.
-Proof. reflexivity. Qed.
-
-(* ========================================================================= *)
-(* icon/merkle/hexary                                                         *)
-(* ========================================================================= *)
-
-Lemma LevelFromLen_0 : LevelFromLen 0 = 0.
-Proof. reflexivity. Qed.
-
-(* LevelFromLen len is the least L with len <= 16^L *)
-Lemma LevelFromLen_spec len :
-  1 <= len <= max_i64 ->
-  0 <= LevelFromLen len <= 16 /\
-  len <= 16 ^ LevelFromLen len /\
-  (0 < LevelFromLen len -> 16 ^ (LevelFromLen len - 1) < len).
-Proof.
-  intros Hl. unfold LevelFromLen. destruct (len =? 0) eqn:E; [lia|].
-  rewrite (wrap_u64_small len) by lia. rewrite wrap_u64_small by lia.
-  destruct (Z.eq_dec len 1) as [->|Hne].
-  { cbn. lia. }
-  assert (Hpos : 0 < len - 1) by lia.
-  pose proof (bits_len64_spec (len - 1) Hpos) as [Hlo Hhi].
-  pose proof (bits_len64_le_64 (len - 1) ltac:(lia)) as Hle.
-  assert (Hb1 : 1 <= bits_len64 (len - 1)).
-  { unfold bits_len64. destruct (len - 1 <=? 0) eqn:E2; [lia|].
-    pose proof (Z.log2_nonneg (len - 1)). lia. }
-  set (b := bits_len64 (len - 1)) in *.
-  rewrite (wrap_int_small (b + 3)) by lia.
-  rewrite quot_nonneg by lia. rewrite wrap_int_small by lia.
-  set (L := (b + 3) / 4).
-  assert (HL : 4 * L - 3 <= b <= 4 * L) by (subst L; lia).
-  assert (H16 : forall k, 0 <= k -> 16 ^ k = 2 ^ (4 * k)).
-  { intros k Hk. change 16 with (2 ^ 4). rewrite <- Z.pow_mul_r by lia. reflexivity. }
-  split; [lia|]. split.
-  - rewrite H16 by lia.
-    assert (2 ^ b <= 2 ^ (4 * L)) by (apply Z.pow_le_mono_r; lia). lia.
-  - intros HLpos. rewrite H16 by lia.
-    assert (2 ^ (4 * (L - 1)) <= 2 ^ (b - 1)) by (apply Z.pow_le_mono_r; lia). lia.
-Qed.
-
-(* ---------------------------------------------------------------- powerOf16 *)
-
-Definition is_pow16 (n : Z) : Prop := exists k, 0 <= k /\ n = 16 ^ k.
-
-Lemma is_pow16_step n :
-  15 < n -> (is_pow16 n <-> n mod 16 = 0 /\ is_pow16 (n / 16)).
-Proof.
-  intros Hn. split.
-  - intros [k [Hk ->]].
-    assert (k <> 0) by (intros ->; cbn in Hn; lia).
-    replace k with (Z.succ (k - 1)) by lia. rewrite Z.pow_succ_r by lia.
-    split.
-    + rewrite Z.mul_comm. apply Z.mod_mul. lia.
-    + exists (k - 1). split; [lia|]. rewrite Z.mul_comm. rewrite Z.div_mul by lia. reflexivity.
-  - intros [Hm [k [Hk He]]]. exists (k + 1). split; [lia|].
-    rewrite Z.pow_add_r by lia. rewrite <- He. change (16 ^ 1) with 16. lia.
-Qed.
-
-Lemma is_pow16_small n : 0 <= n <= 15 -> (is_pow16 n <-> n = 1).
-Proof.
-  intros Hn. split.
-  - intros [k [Hk ->]]. destruct (Z.eq_dec k 0) as [->|]; [reflexivity|].
-    assert (16 ^ 1 <= 16 ^ k) by (apply Z.pow_le_mono_r; lia). change (16 ^ 1) with 16 in *. lia.
-  - intros ->. exists 0. split; [lia|reflexivity].
-Qed.
-
-Lemma powerOf16_loop1_spec fuel : forall n,
-  0 <= n < 16 * 16 ^ Z.of_nat fuel ->
-  (exists m, powerOf16_loop1 (S fuel) n = Some (inr m) /\ 0 <= m <= 15 /\ (is_pow16 n <-> m = 1)) \/
-  (powerOf16_loop1 (S fuel) n = Some (inl false) /\ ~ is_pow16 n).
-Proof.
-  induction fuel as [|fuel IH]; intros n Hn.
-  - change (16 ^ Z.of_nat 0) with 1 in Hn. cbn [powerOf16_loop1].
-    destruct (n >? 15) eqn:E; [lia|].
-    left. exists n. split; [reflexivity|]. split; [lia|]. apply is_pow16_small. lia.
-  - remember (S fuel) as f eqn:Hf. cbn [powerOf16_loop1]. destruct (n >? 15) eqn:E.
-    + assert (H15 : 15 < n) by lia.
-      change 15 with (2 ^ 4 - 1). rewrite land_ones_mod by lia. change (2 ^ 4) with 16.
-      rewrite shiftr_div by lia. change (2 ^ 4) with 16.
-      destruct (negb (n mod 16 =? 0)) eqn:E2.
-      * right. split; [reflexivity|]. rewrite is_pow16_step by lia. lia.
-      * assert (Hm : n mod 16 = 0) by lia.
-        assert (Hr : 0 <= n / 16 < 16 * 16 ^ Z.of_nat fuel).
-        { subst f. rewrite Nat2Z.inj_succ, Z.pow_succ_r in Hn by lia. lia. }
-        subst f.
-        destruct (IH (n / 16) Hr) as [[m [He [Hm15 Hiff]]]|[He Hnot]].
-        -- left. exists m. split; [exact He|]. split; [exact Hm15|].
-           rewrite is_pow16_step by lia. tauto.
-        -- right. split; [exact He|]. rewrite is_pow16_step by lia. tauto.
-    + left. exists n. split; [reflexivity|]. split; [lia|]. apply is_pow16_small. lia.
-Qed.
-
-(* 17 rounds of fuel suffice for every uint64; the result is "n is a power of 16" *)
-Lemma powerOf16_spec fuel n :
-  (17 <= fuel)%nat -> 0 <= n <= max_u64 ->
-  exists b, powerOf16 fuel n = Some b /\ (b = true <-> is_pow16 n).
-Proof.
-  intros Hf Hn. destruct fuel as [|fuel]; [lia|].
-  assert (Hlt : 0 <= n < 16 * 16 ^ Z.of_nat fuel).
-  { split; [lia|]. assert (16 ^ 16 <= 16 ^ Z.of_nat fuel) by (apply Z.pow_le_mono_r; lia).
-    change (16 ^ 16) with 18446744073709551616 in *. lia. }
-  unfold powerOf16.
-  destruct (powerOf16_loop1_spec fuel n Hlt) as [[m [He [Hm Hiff]]]|[He Hnot]]; rewrite He.
-  - exists (m =? 1). split; [reflexivity|]. rewrite Hiff. lia.
-  - exists false. split; [reflexivity|]. split; [discriminate|tauto].
-Qed.
-
-Example powerOf16_examples :
-  powerOf16 17 1 = Some true /\ powerOf16 17 16 = Some true /\ powerOf16 17 4096 = Some true /\
-  powerOf16 17 0 = Some false /\ powerOf16 17 32 = Some false /\ powerOf16 17 17 = Some false /\
-  powerOf16 17 1152921504606846976 = Some true.
-Proof. repeat split; vm_compute; reflexivity. Qed.
-
-(* -------------------------------------------------------- minProofLenForKey *)
-
-(* the scalar skeleton: the capped value of (tz + 3)/4 - 1, where tz is the number of
-   trailing zero bits of ^uint64(key ^ (key-1)) *)
-Definition minProofLen_tz (key : Z) : Z :=
-  bits_tz64 (wrap_u64 (Z.lnot (wrap_u64 (Z.lxor key (wrap_i64 (key - 1)))))).
-
-Lemma minProofLenForKey_spec key level :
-  0 <= level <= max_i64 ->
-  minProofLenForKey key level = Z.min level ((minProofLen_tz key + 3) / 4 - 1).
-Proof.
-  intros Hl. unfold minProofLenForKey. fold (minProofLen_tz key).
-  pose proof (bits_tz64_range (wrap_u64 (Z.lnot (wrap_u64 (Z.lxor key (wrap_i64 (key - 1))))))
-                (wrap_u64_range _)) as Htz.
-  fold (minProofLen_tz key) in Htz.
-  rewrite (wrap_int_small (minProofLen_tz key + 3)) by lia.
-  rewrite quot_nonneg by lia. rewrite (wrap_int_small (_ / 4)) by lia.
-  rewrite wrap_int_small by lia. cbv zeta. split_ifs; lia.
-Qed.
-
-Lemma minProofLenForKey_le_level key level :
-  0 <= level <= max_i64 -> minProofLenForKey key level <= level.
-Proof. intros. rewrite minProofLenForKey_spec by lia. lia. Qed.
-
-Lemma minProofLen_tz_pow2_odd t r :
-  0 <= t -> 0 <= r -> 2 ^ t * (2 * r + 1) <= max_i64 ->
-  minProofLen_tz (2 ^ t * (2 * r + 1)) = t + 1.
-Proof.
-  intros Ht Hr Hmax.
-  assert (Hp : 0 < 2 ^ t) by (apply Z.pow_pos_nonneg; lia).
-  assert (Hk : 1 <= 2 ^ t * (2 * r + 1)) by nia.
-  assert (Ht62 : t <= 62).
-  { destruct (Z_le_gt_dec t 62); [assumption|].
-    assert (2 ^ 63 <= 2 ^ t) by (apply Z.pow_le_mono_r; lia).
-    change (2 ^ 63) with 9223372036854775808 in *. nia. }
-  assert (Hle : 2 ^ (t + 1) <= 2 ^ 63) by (apply Z.pow_le_mono_r; lia).
-  change (2 ^ 63) with 9223372036854775808 in Hle.
-  assert (Hp1 : 0 < 2 ^ (t + 1)) by (apply Z.pow_pos_nonneg; lia).
-  unfold minProofLen_tz.
-  rewrite wrap_i64_small by lia. rewrite lxor_pred_pow2_odd by lia.
-  rewrite (wrap_u64_small (2 ^ (t + 1) - 1)) by lia.
-  replace (Z.lnot (2 ^ (t + 1) - 1)) with (- 2 ^ (t + 1)) by (unfold Z.lnot; lia).
-  assert (E64 : 18446744073709551616 = 2 ^ (t + 1) * (2 * 2 ^ (62 - t))).
-  { change 18446744073709551616 with (2 ^ 64).
-    replace 64 with ((t + 1) + (1 + (62 - t))) by lia.
-    rewrite (Z.pow_add_r 2 (t + 1)) by lia. rewrite (Z.pow_add_r 2 1) by lia. reflexivity. }
-  assert (Hq : 0 < 2 ^ (62 - t)) by (apply Z.pow_pos_nonneg; lia).
-  assert (Ew : wrap_u64 (- 2 ^ (t + 1)) = 2 ^ (t + 1) * (2 * (2 ^ (62 - t) - 1) + 1)).
-  { unfold wrap_u64.
-    replace (- 2 ^ (t + 1)) with (18446744073709551616 - 2 ^ (t + 1) + (-1) * 18446744073709551616) by lia.
-    rewrite Z.mod_add by lia. rewrite Z.mod_small by lia.
-    rewrite E64 at 1. lia. }
-  rewrite Ew. apply bits_tz64_pow2_odd. lia.
-Qed.
-
-(* the meaning: with key = 2^t * odd (t trailing zero bits), the minimal proof length is
-   the number of whole trailing zero hex digits of key, capped by the tree level *)
-Lemma minProofLenForKey_trailing_zeros key level t r :
-  0 <= level <= max_i64 -> 0 <= t -> 0 <= r ->
-  key = 2 ^ t * (2 * r + 1) -> key <= max_i64 ->
-  minProofLenForKey key level = Z.min level (t / 4).
-Proof.
-  intros Hl Ht Hr -> Hk. rewrite minProofLenForKey_spec by lia.
-  rewrite minProofLen_tz_pow2_odd by lia. lia.
-Qed.
-
-Lemma minProofLenForKey_key0 level :
-  0 <= level <= max_i64 -> minProofLenForKey 0 level = Z.min level 15.
-Proof. intros Hl. rewrite minProofLenForKey_spec by lia. reflexivity. Qed.
-
-Lemma minProofLenForKey_params_ok : minProofLenForKey_params = ["key"; "sa.level"]%string.
-Proof. reflexivity. Qed.
-
-Example minProofLenForKey_examples :
-  minProofLenForKey 1 5 = 0 /\ minProofLenForKey 15 5 = 0 /\ minProofLenForKey 16 5 = 1 /\
-  minProofLenForKey 48 5 = 1 /\ minProofLenForKey 256 5 = 2 /\ minProofLenForKey 4096 2 = 2 /\
-  minProofLenForKey 0 5 = 5 /\ minProofLenForKey 0 20 = 15.
-Proof. repeat split; vm_compute; reflexivity. Qed.
-
-(* ========================================================================= *)
-(* common/containerdb: rlpCountBytesForSize                                   *)
-(* ========================================================================= *)
-
-Lemma rlpCount_loop1_spec fuel : forall b cnt,
-  0 <= b < 256 ^ Z.of_nat fuel -> 0 <= cnt -> cnt + Z.of_nat fuel <= max_i64 ->
-  exists b' cnt', rlpCountBytesForSize_loop1 (S fuel) b cnt = Some (b', cnt') /\
-    cnt <= cnt' <= cnt + Z.of_nat fuel /\ b < 256 ^ (cnt' - cnt) /\
-    (cnt < cnt' -> 256 ^ (cnt' - cnt - 1) <= b).
-Proof.
-  induction fuel as [|fuel IH]; intros b cnt Hb Hc Hf.
-  - change (256 ^ Z.of_nat 0) with 1 in Hb. cbn [rlpCountBytesForSize_loop1].
-    destruct (b >? 0) eqn:E; [lia|].
-    exists b, cnt. split; [reflexivity|]. split; [lia|].
-    replace (cnt - cnt) with 0 by lia. cbn. lia.
-  - remember (S fuel) as f eqn:Hfe. cbn [rlpCountBytesForSize_loop1]. destruct (b >? 0) eqn:E.
-    + rewrite shiftr_div by lia. change (2 ^ 8) with 256.
-      rewrite wrap_int_small by lia.
-      assert (Hr : 0 <= b / 256 < 256 ^ Z.of_nat fuel).
-      { subst f. rewrite Nat2Z.inj_succ, Z.pow_succ_r in Hb by lia. lia. }
-      subst f.
-      destruct (IH (b / 256) (cnt + 1) Hr ltac:(lia) ltac:(lia)) as [b' [cnt' [He [Hc' [Hlt Hge]]]]].
-      exists b', cnt'. split; [exact He|]. split; [lia|].
-      replace (cnt' - cnt) with (Z.succ (cnt' - (cnt + 1))) by lia.
-      rewrite Z.pow_succ_r by lia. split; [lia|].
-      intros _. replace (Z.succ (cnt' - (cnt + 1)) - 1) with (cnt' - (cnt + 1)) by lia.
-      destruct (Z.eq_dec cnt' (cnt + 1)) as [->|Hne].
-      * replace (cnt + 1 - (cnt + 1)) with 0 by lia. cbn. lia.
-      * specialize (Hge ltac:(lia)).
-        replace (cnt' - (cnt + 1)) with (Z.succ (cnt' - (cnt + 1) - 1)) by lia.
-        rewrite Z.pow_succ_r by lia. lia.
-    + exists b, cnt. split; [reflexivity|]. split; [lia|].
-      replace (cnt - cnt) with 0 by lia. cbn. lia.
-Qed.
-
-(* the number of bytes of the big-endian representation of b (1 for b = 0) *)
-Lemma rlpCountBytesForSize_spec fuel b :
-  (8 <= fuel <= 1000)%nat -> 0 <= b <= max_i64 ->
-  exists c, rlpCountBytesForSize fuel b = Some c /\
-    1 <= c <= 8 /\ b < 256 ^ c /\ (1 < c -> 256 ^ (c - 1) <= b).
-Proof.
-  intros Hf Hb. destruct fuel as [|fuel]; [lia|].
-  unfold rlpCountBytesForSize. cbv zeta.
-  rewrite shiftr_div by lia. change (2 ^ 8) with 256.
-  assert (Hr : 0 <= b / 256 < 256 ^ Z.of_nat fuel).
-  { split; [lia|]. assert (256 ^ 7 <= 256 ^ Z.of_nat fuel) by (apply Z.pow_le_mono_r; lia).
-    change (256 ^ 7) with 72057594037927936 in *. lia. }
-  destruct (rlpCount_loop1_spec fuel (b / 256) 1 Hr ltac:(lia) ltac:(lia)) as [b' [c [He [Hc [Hlt Hge]]]]].
-  rewrite He. exists c. split; [reflexivity|].
-  assert (Hpow : b < 256 ^ c).
-  { replace c with (Z.succ (c - 1)) by lia. rewrite Z.pow_succ_r by lia. lia. }
-  assert (Hc8 : c <= 8).
-  { destruct (Z_le_gt_dec c 8); [assumption|].
-    specialize (Hge ltac:(lia)).
-    assert (256 ^ 7 <= 256 ^ (c - 1 - 1)) by (apply Z.pow_le_mono_r; lia).
-    change (256 ^ 7) with 72057594037927936 in *. lia. }
-  split; [lia|]. split; [exact Hpow|].
-  intros Hc1. specialize (Hge ltac:(lia)).
-  replace (c - 1) with (Z.succ (c - 1 - 1)) by lia. rewrite Z.pow_succ_r by lia. lia.
-Qed.
-
-Example rlpCountBytesForSize_examples :
-  rlpCountBytesForSize 8 0 = Some 1 /\ rlpCountBytesForSize 8 255 = Some 1 /\
-  rlpCountBytesForSize 8 256 = Some 2 /\ rlpCountBytesForSize 8 65535 = Some 2 /\
-  rlpCountBytesForSize 8 65536 = Some 3 /\ rlpCountBytesForSize 8 9223372036854775807 = Some 8.
-Proof. repeat split; vm_compute; reflexivity. Qed.
-
-(* ========================================================================= *)
-(* network: onPacket decisions, role flags, packet info words                 *)
-(* ========================================================================= *)
-
-(* p2pDestPeer = 0xFF, p2pDestAny = 0x00 (resolved from network/packet.go) *)
-Lemma onPacketIsOneHop_spec ttl dest :
-  onPacketIsOneHop ttl dest = true <-> (ttl <> 0 \/ dest = 255).
-Proof. unfold onPacketIsOneHop. kernel_lia. Qed.
-
-Lemma onPacketIsOneHop_params_ok : onPacketIsOneHop_params = ["pkt.ttl"; "pkt.dest"]%string.
-Proof. reflexivity. Qed.
-
-Lemma onPacketIsBroadcast_spec dest ttl :
-  onPacketIsBroadcast dest ttl = true <-> (dest = 0 /\ ttl = 0).
-Proof. unfold onPacketIsBroadcast. kernel_lia. Qed.
-
-Lemma onPacketIsBroadcast_params_ok : onPacketIsBroadcast_params = ["pkt.dest"; "pkt.ttl"]%string.
-Proof. reflexivity. Qed.
-
-(* a packet is never both a one-hop packet and a broadcast *)
-Lemma onPacket_oneHop_broadcast_exclusive ttl dest :
-  onPacketIsBroadcast dest ttl = true -> onPacketIsOneHop ttl dest = false.
-Proof.
-  rewrite onPacketIsBroadcast_spec. intros [-> ->]. reflexivity.
-Qed.
-
-(* drop rule 1: a one-hop packet must come from the peer that sent it *)
-Lemma onPacketDropOneHop_spec isOneHop isSourcePeer :
-  onPacketDropOneHop isOneHop isSourcePeer = true <-> (isOneHop = true /\ isSourcePeer = false).
-Proof. unfold onPacketDropOneHop. destruct isOneHop, isSourcePeer; cbn; intuition congruence. Qed.
-
-Lemma onPacketDropOneHop_params_ok : onPacketDropOneHop_params = ["isOneHop"; "isSourcePeer"]%string.
-Proof. reflexivity. Qed.
-
-(* drop rule 2: a broadcast whose source is the sending peer needs the root (validator) role *)
-Lemma onPacketDropBroadcast_spec isBroadcast isSourcePeer hasRoot :
-  onPacketDropBroadcast isBroadcast isSourcePeer hasRoot = true <->
-  (isBroadcast = true /\ isSourcePeer = true /\ hasRoot = false).
-Proof.
-  unfold onPacketDropBroadcast. destruct isBroadcast, isSourcePeer, hasRoot; cbn; intuition congruence.
-Qed.
-
-Lemma onPacketDropBroadcast_params_ok :
-  onPacketDropBroadcast_params = ["isBroadcast"; "isSourcePeer"; "p.HasRole(p2pRoleRoot)"]%string.
-Proof. reflexivity. Qed.
-
-Lemma peerRoleHas_spec pr o : peerRoleHas pr o = true <-> Z.land pr o = o.
-Proof. unfold peerRoleHas. apply Z.eqb_eq. Qed.
-
-Lemma peerRoleHas_bits pr o :
-  peerRoleHas pr o = true <->
-  (forall n, 0 <= n -> Z.testbit o n = true -> Z.testbit pr n = true).
-Proof.
-  rewrite peerRoleHas_spec. split.
-  - intros H n Hn Ho. rewrite <- H in Ho. rewrite Z.land_spec in Ho.
-    apply andb_true_iff in Ho. tauto.
-  - intros H. apply Z.bits_inj'. intros n Hn. rewrite Z.land_spec.
-    destruct (Z.testbit o n) eqn:Eo.
-    + rewrite (H n Hn Eo). reflexivity.
-    + apply andb_false_r.
-Qed.
-
-Lemma newPacketDestInfo_spec dest ttl :
-  0 <= dest <= max_u8 -> 0 <= ttl <= max_u8 ->
-  newPacketDestInfo dest ttl = dest * 256 + ttl.
-Proof.
-  intros Hd Ht. unfold newPacketDestInfo.
-  rewrite (wrap_int_small (Z.shiftl dest 8))
-    by (rewrite shiftl_mul by lia; change (2 ^ 8) with 256; lia).
-  rewrite lor_shiftl_low by (change (2 ^ 8) with 256; lia).
-  change (2 ^ 8) with 256. apply wrap_u16_small. lia.
-Qed.
-
-Lemma packetDestInfoDest_roundtrip dest ttl :
-  0 <= dest <= max_u8 -> 0 <= ttl <= max_u8 ->
-  packetDestInfoDest (newPacketDestInfo dest ttl) = dest.
-Proof.
-  intros Hd Ht. rewrite newPacketDestInfo_spec by lia. unfold packetDestInfoDest.
-  rewrite shiftr_div by lia. change (2 ^ 8) with 256.
-  replace ((dest * 256 + ttl) / 256) with dest by lia. apply wrap_u8_small. lia.
-Qed.
-
-(* packetExtendMaxHint = 0x3F, packetExtendMaxLen = 0x03FF *)
-Lemma newPacketExtendInfo_spec hint len :
-  0 <= hint <= 63 ->
-  newPacketExtendInfo hint len = hint * 1024 + len mod 1024.
-Proof.
-  intros Hh. unfold newPacketExtendInfo.
-  change 1023 with (2 ^ 10 - 1). rewrite land_ones_mod by lia. change (2 ^ 10) with 1024.
-  rewrite (wrap_int_small (Z.shiftl hint 10))
-    by (rewrite shiftl_mul by lia; change (2 ^ 10) with 1024; lia).
-  rewrite lor_shiftl_low by (change (2 ^ 10) with 1024; lia).
-  change (2 ^ 10) with 1024. apply wrap_u16_small. lia.
-Qed.
-
-Lemma packetExtendInfo_roundtrip hint len :
-  0 <= hint <= 63 ->
-  packetExtendInfoHint (newPacketExtendInfo hint len) = hint /\
-  packetExtendInfoLen (newPacketExtendInfo hint len) = len mod 1024.
-Proof.
-  intros Hh. rewrite newPacketExtendInfo_spec by lia.
-  unfold packetExtendInfoHint, packetExtendInfoLen. cbv zeta.
-  rewrite shiftr_div by lia.
-  change 63 with (2 ^ 6 - 1). change 1023 with (2 ^ 10 - 1).
-  rewrite !land_ones_mod by lia. change (2 ^ 10) with 1024. change (2 ^ 6) with 64.
-  split; [rewrite wrap_u8_small by lia|]; lia.
-Qed.
-
-(* ========================================================================= *)
-(* btp/ntm: secp256k1 proof context                                           *)
-(* ========================================================================= *)
-
-(* Verify rejects ("not enough proof parts") exactly when valid is NOT over two thirds *)
-Lemma ntmNotEnoughParts_spec valid n :
-  0 <= n <= half_i64 ->
-  ntmNotEnoughParts valid n = true <-> 3 * valid <= 2 * n.
-Proof.
-  unfold ntmNotEnoughParts. kernel_lia.
-Qed.
-
-Lemma ntmNotEnoughParts_params_ok :
-  ntmNotEnoughParts_params = ["valid"; "len(pc.Validators)"]%string.
-Proof. reflexivity. Qed.
-
-(* the BTP proof threshold is the complement of the consensus threshold *)
-Lemma ntm_threshold_is_consensus_threshold valid n :
-  0 <= n <= half_i64 ->
-  ntmNotEnoughParts valid n = negb (hasOverTwoThirds valid n).
-Proof.
-  intros Hn. apply bool_eq_iff. rewrite negb_true_iff.
-  rewrite ntmNotEnoughParts_spec by lia.
-  destruct (hasOverTwoThirds valid n) eqn:E.
-  - apply hasOverTwoThirds_spec in E; [|lia]. split; [lia|discriminate].
-  - split; [reflexivity|]. intros _.
-    destruct (Z_le_gt_dec (3 * valid) (2 * n)); [assumption|].
-    assert (hasOverTwoThirds valid n = true) by (apply hasOverTwoThirds_spec; lia). congruence.
-Qed.
-
-(* VerifyPart rejects a proof part whose index is outside [0, len(Validators)) *)
-Lemma ntmPartIndexOutOfRange_spec idx n :
-  ntmPartIndexOutOfRange idx n = false <-> 0 <= idx < n.
-Proof. unfold ntmPartIndexOutOfRange. kernel_lia. Qed.
-
-Lemma ntmPartIndexOutOfRange_params_ok :
-  ntmPartIndexOutOfRange_params = ["epp.Index"; "len(pc.Validators)"]%string.
-Proof. reflexivity. Qed.
+   The lemmas live in one file per kernel, Proofs_K_<name>.v, each importing only its
+   own gen/K_<name>.v (lemmas relating several kernels are in Proofs_KX_<topic>.v and
+   import exactly the kernels they relate).  Each lemma states, in plain arithmetic,
+   exactly what the CURRENT Go code decides; editing a comparison, a constant or an
+   operator in the Go source changes the generated definition and the lemma of THAT
+   kernel stops compiling -- and with it only the property files that import it.
+
+   Property developments (Link_Cxx.v, Proofs_*.v, Prop_Cxx.v) must import the
+   per-kernel files they use, NOT this umbrella: importing it would make every
+   property depend on every kernel.  See docs/notes/kernel_linking.md. *)
+From Goloop Require Export Proofs_K_tactics.
+From Goloop Require Export Proofs_K_enoughVote.
+From Goloop Require Export Proofs_K_hasOverTwoThirds.
+From Goloop Require Export Proofs_K_overTwoThirdsDecision.
+From Goloop Require Export Proofs_KX_thresholds_agree.
+From Goloop Require Export Proofs_K_matchNID.
+From Goloop Require Export Proofs_K_isValidTransition.
+From Goloop Require Export Proofs_K_getProposerIndex.
+From Goloop Require Export Proofs_K_psidAppData.
+From Goloop Require Export Proofs_K_destructPSIDAppData.
+From Goloop Require Export Proofs_KX_psidAppData_roundtrip.
+From Goloop Require Export Proofs_K_CheckTxTimestamp.
+From Goloop Require Export Proofs_K_timestampRangeMin.
+From Goloop Require Export Proofs_K_timestampRangeMax.
+From Goloop Require Export Proofs_KX_timestampRange_window.
+From Goloop Require Export Proofs_K_trackerHasGuard.
+From Goloop Require Export Proofs_K_locatorCacheMiss.
+From Goloop Require Export Proofs_K_LevelFromLen.
+From Goloop Require Export Proofs_K_powerOf16.
+From Goloop Require Export Proofs_K_minProofLenForKey.
+From Goloop Require Export Proofs_K_rlpCountBytesForSize.
+From Goloop Require Export Proofs_K_onPacketIsOneHop.
+From Goloop Require Export Proofs_K_onPacketIsBroadcast.
+From Goloop Require Export Proofs_KX_onPacket_exclusive.
+From Goloop Require Export Proofs_K_onPacketDropOneHop.
+From Goloop Require Export Proofs_K_onPacketDropBroadcast.
+From Goloop Require Export Proofs_K_peerRoleHas.
+From Goloop Require Export Proofs_K_newPacketDestInfo.
+From Goloop Require Export Proofs_K_packetDestInfoDest.
+From Goloop Require Export Proofs_KX_packetDestInfo_roundtrip.
+From Goloop Require Export Proofs_K_newPacketExtendInfo.
+From Goloop Require Export Proofs_K_packetExtendInfoHint.
+From Goloop Require Export Proofs_K_packetExtendInfoLen.
+From Goloop Require Export Proofs_KX_packetExtendInfo_roundtrip.
+From Goloop Require Export Proofs_K_ntmNotEnoughParts.
+From Goloop Require Export Proofs_KX_ntm_threshold.
+From Goloop Require Export Proofs_K_ntmPartIndexOutOfRange.
